@@ -1,6 +1,6 @@
 (* C09 -- the current version is the greatest matching tag in scope. *)
 From Coq Require Import List Bool NArith ZArith Permutation.
-From BV Require Import Lib.PyStr Model.V2 Model.Pep440 Model.V1 Model.Vcs Proofs.VcsFacts.
+From BV Require Import Lib.PyStr Model.V2 Model.Pep440 Model.V1 Model.Vcs Proofs.VcsFactsC09.
 Import ListNotations.
 Local Open Scope N_scope.
 
